@@ -148,3 +148,7 @@ impl DiffFlagDefs {
         self.by_name.keys().map(ToString::to_string).collect::<Vec<_>>().join(", ")
     }
 }
+
+#[cfg(kani)]
+#[path = "/verif/contracts/kani/diff_flags.rs"]
+pub(crate) mod verif_kani;
